@@ -91,10 +91,10 @@ class Reductions(Contract):
     def configs(self, tier):
         if tier == 'quick':
             shapes = [(1,), (2,), (3,), (2, 2), (2, 3)]
-            fms = [(True, 4, 2), (False, 3, 0), (True, 8, 9)]
+            fms = [(True, 4, 2), (False, 3, 0), (True, 8, 9), (False, 5, -1), (True, 4, -2)]
         else:
             shapes = [(1,), (2,), (3,), (4,), (5,), (2, 2), (2, 3), (3, 2), (3, 3)]
-            fms = [(True, 1, 0), (True, 4, 2), (False, 3, 0), (True, 8, 9), (False, 8, -1), (True, 12, 6)]
+            fms = [(True, 1, 0), (True, 4, 2), (False, 3, 0), (True, 8, 9), (False, 8, -1), (True, 12, 6), (True, 4, -2)]
         for fm in fms:
             for shape in shapes:
                 axes = [None] + list(range(len(shape)))
